@@ -253,7 +253,7 @@ def copy_relevant(toks):
     return any(t in ('setx', 'methwx') for t in rest[:e]) and any(t in ('readx', 'methrx', 'callf') for t in rest[e:])
 
 
-SIMILAR_NAMES = ['x', 'x1', 'x10', 'x11', 'x2', 'x0', 'x_', 'xx', 'y', 'y1', 'y10', '_', '_1']
+SIMILAR_NAMES = ['x', 'x1', 'x10', 'x11', 'x2', 'x0', 'x_', 'xx', 'y', 'y1', 'y10', '_', '_1', 'this', 'this1']       # (this is an ordinary name: it can be a parameter in any position and can be shadowed)
 
 
 def many_scopes_program(k):
@@ -269,6 +269,8 @@ def many_scopes_program(k):
         return I(lit[0])
     glob = r.sample(SIMILAR_NAMES, r.randint(2, 5))
     params = r.sample(SIMILAR_NAMES, r.randint(0, 3)) if frame in ('fun', 'meth') else []
+    if frame == 'meth':
+        params = [p for p in params if p != 'this']        # a method already has its receiver under that name; the README does not say what a second, explicit `this` parameter means
     budget = [r.randint(9, 14)]
 
     def show(vis):
